@@ -102,6 +102,19 @@ fn part_a(out: &mut Out, e: &mut Engine) {
     int_type!(out, e, u64, "u64");
     int_type!(out, e, isize, "isize");
     int_type!(out, e, usize, "usize");
+    // u128 only converts host -> script
+    for v in [0u128, 1, (1u128 << 63) - 1, 1u128 << 63, (1u128 << 63) + 1, u64::MAX as u128 - 1, u64::MAX as u128, 1u128 << 64, (1u128 << 64) + 1, u128::MAX] {
+        match v.into_steelval() {
+            Ok(sv) => {
+                e.register_value("hv-u128", sv);
+                let seen = show(run1(e, "hv-u128"));
+                let want = if v <= i64::MAX as u128 { format!("(i {})", v) } else { format!("(big {})", v) };
+                out.check("a-host-to-script", format!("u128 {} as seen by the script", v), want, seen);
+            }
+            Err(_) => out.check("a-host-to-script", format!("u128 {} into_steelval", v), "ok".to_string(), "ERR".to_string()),
+        }
+    }
+    out.cells.push("int:u128".to_string());
     // wrong kinds for an integer parameter
     for lit in ["1.5", "1/2", "\"1\"", "#\\a", "'()", "#t", "(list 1)", "1.0"] {
         let before = ENTERED.load(Ordering::SeqCst);
@@ -314,6 +327,62 @@ fn part_c(out: &mut Out) {
     }
 }
 
+static mut INNER_ENGINE: *mut Engine = std::ptr::null_mut();
+static mut INNER_OBJ: *mut Counter = std::ptr::null_mut();
+static INNER_RESULT: std::sync::Mutex<Vec<String>> = std::sync::Mutex::new(Vec::new());
+
+/// host function called by the OUTER script while the outer reference is lent: lends a second object to a second engine, whose script
+/// stashes it; after that inner lend has ended the stash must be dead while the outer lend is still alive
+fn inner_lend() -> isize {
+    unsafe {
+        let e2 = &mut *INNER_ENGINE;
+        let obj = &mut *INNER_OBJ;
+        let r = e2.run_with_reference::<Counter, Counter>(obj, "*ext*", "(begin (set! stash *ext*) (ext-bump *ext*))");
+        let mut log = INNER_RESULT.lock().unwrap();
+        log.push(format!("inner-lend:{}", match r { Ok(v) => steel::verif::encode(&v), Err(_) => "ERR".to_string() }));
+        log.push(format!("inner-late-use:{}", show(run1(e2, "(ext-bump stash)"))));
+        log.push(format!("inner-obj:{}", obj.value));
+    }
+    0
+}
+
+fn part_c_nested(out: &mut Out) {
+    for order in 0..2 {
+        let mut e1 = Engine::new();
+        let mut e2 = Engine::new();
+        for e in [&mut e1, &mut e2] {
+            e.register_value("*ext*", SteelVal::Void);
+            e.register_fn("ext-get", Counter::get);
+            e.register_fn("ext-bump", Counter::bump);
+            let _ = e.run("(define stash #f)".to_string());
+        }
+        e1.register_fn("inner-lend", inner_lend);
+        let mut a = Counter { value: 100 };
+        let mut b = Counter { value: 500 };
+        INNER_RESULT.lock().unwrap().clear();
+        unsafe {
+            INNER_ENGINE = &mut e2 as *mut Engine;
+            INNER_OBJ = &mut b as *mut Counter;
+        }
+        // order 0: use the outer reference after the inner lend; order 1: also stash the outer reference before the inner lend
+        let script = if order == 0 { "(begin (inner-lend) (ext-bump *ext*))" } else { "(begin (set! stash *ext*) (ext-bump *ext*) (inner-lend) (ext-get *ext*))" };
+        let r = std::panic::catch_unwind(std::panic::AssertUnwindSafe(|| e1.run_with_reference::<Counter, Counter>(&mut a, "*ext*", script)));
+        let outer = match r { Ok(Ok(v)) => steel::verif::encode(&v), Ok(Err(_)) => "ERR".to_string(), Err(_) => "PANIC".to_string() };
+        out.check("c-nested", format!("nested lend (variant {}): outer reference still usable after the inner lend ended", order), "(i 101)".to_string(), outer);
+        let log = INNER_RESULT.lock().unwrap().clone();
+        out.check("c-nested", format!("nested lend (variant {}): inner lend / late use of the inner stash / inner object", order),
+                  "inner-lend:(i 501) inner-late-use:ERR inner-obj:501".to_string(), log.join(" "));
+        let late2 = show(run1(&mut e2, "(ext-bump stash)"));
+        out.check("c-nested", format!("nested lend (variant {}): inner stash after everything returned", order), "ERR".to_string(), late2);
+        if order == 1 {
+            let late1 = show(run1(&mut e1, "(ext-bump stash)"));
+            out.check("c-nested", "nested lend: outer stash after everything returned".to_string(), "ERR".to_string(), late1);
+        }
+        out.check("c-nested", format!("nested lend (variant {}): host objects afterwards", order), "101 501".to_string(), format!("{} {}", a.value, b.value));
+        out.cells.push(format!("lent:nested-{}", order));
+    }
+}
+
 pub fn main(_args: &[String]) {
     crate::evalsrv::install_panic_hook();
     let stdin = std::io::stdin();
@@ -345,6 +414,7 @@ pub fn main(_args: &[String]) {
             }
             if part == "all" || part == "c" {
                 part_c(&mut out);
+                part_c_nested(&mut out);
             }
             emit(&json!({"checks": out.checks, "cells": out.cells, "fails": out.fails}).to_string());
         });
